@@ -450,6 +450,14 @@ type collectServer struct {
 func (c *collectServer) Context() context.Context { return c.ctx }
 
 func (c *collectServer) Send(r *storepb.SeriesResponse) error {
+	// like a gRPC stream: the message is marshalled inside Send, so that nothing kept by the
+	// collector aliases buffers the sender may reuse afterwards
+	if b, err := r.Marshal(); err == nil {
+		cp := &storepb.SeriesResponse{}
+		if cp.Unmarshal(b) == nil {
+			r = cp
+		}
+	}
 	c.frames++
 	if c.onSend != nil {
 		if err := c.onSend(c.frames); err != nil {
